@@ -166,6 +166,12 @@ def write_replay(pid, body):
     return p
 
 
+def public_meta(m):
+    if isinstance(m, dict) and "replay" in m:
+        return {k: v for k, v in m.items() if not k.startswith("_")}
+    return None
+
+
 def describe_req(line):
     f = line.split("\t")
     d = {"op": f[0], "src": proto.unhx(f[1]), "ds": proto.unhx(f[2]), "de": proto.unhx(f[3]), "tl": proto.unhx(f[4]),
@@ -277,7 +283,7 @@ def run_property(prop, tier, seed, replay=None):
         f = shrink(prop, failures[0], findings)
         path = write_replay(pid, {
             "kind": "property-violation", "property": pid, "clause": f.kind, "detail": f.detail,
-            "input": f.case.meta if isinstance(f.case.meta, dict) and "replay" in f.case.meta else None,
+            "input": public_meta(f.case.meta),
             "requests": [describe_req(l) for l in f.case.reqs],
             "implementation": [describe_reply(r) for r in (f.impl or [])],
             "model": [describe_reply(r) for r in (f.model or [])],
@@ -411,7 +417,7 @@ def attribute(prop, case, ci, cm, dis, verdict, findings):
 
 def shrink(prop, failure, findings, budget=400):
     """Delta-debug the failing case through prop.shrink_candidates, if the property provides it."""
-    if not hasattr(prop, "shrink_candidates"):
+    if not callable(getattr(prop, "shrink_candidates", None)):
         return failure
     cur = failure
     steps = 0
